@@ -327,7 +327,7 @@ type SvcRun struct {
 
 // RunSvc runs a SvcCase to completion inside the bubble and returns the
 // engine for the oracles.
-func RunSvc(sim *sched.Sim, c *SvcCase, raceMode bool) *SvcRun {
+func RunSvc(sim *sched.Sim, c *SvcCase, raceMode bool, setup func(e *Engine)) *SvcRun {
 	h := NewHist(sim)
 	h.Off = raceMode
 	if len(c.Optional) == 1 && c.Optional[0] == "*" {
@@ -348,6 +348,9 @@ func RunSvc(sim *sched.Sim, c *SvcCase, raceMode bool) *SvcRun {
 	defer func() { res.VerifHook = nil }()
 	sim.AddProvider(e.DeliverActions)
 	sim.AddProvider(e.TimeActions)
+	if setup != nil {
+		setup(e)
+	}
 	e.StartActors()
 
 	serve := sim.TaskByName("serve")
@@ -472,6 +475,9 @@ func (e *Engine) checkQuiescent(ep int) {
 	if e.H.Off {
 		return
 	}
+	if e.OnQuiescent != nil {
+		e.OnQuiescent(ep)
+	}
 	hs := handlerSets(e.Case)
 	info := e.Epochs[ep]
 	if e.foreignShutdownEpoch >= 0 && ep >= e.foreignShutdownEpoch {
@@ -515,7 +521,7 @@ func (e *Engine) checkQuiescent(ep int) {
 			if len(s.Starts) > expect {
 				cls = "duplicate-callback"
 			}
-			e.H.Violate("C02", cls, s.Kind, fmt.Sprintf("submission %d (%s %s%s group %q) started %d times at quiescence, expected %d", s.Op.ID, s.Kind, s.Op.Subject, s.Op.RID, s.Group, len(s.Starts), expect))
+			e.H.Violate("C02", cls, "", fmt.Sprintf("submission %d (%s %s%s group %q) started %d times at quiescence, expected %d", s.Op.ID, s.Kind, s.Op.Subject, s.Op.RID, s.Group, len(s.Starts), expect))
 		}
 	}
 }
@@ -607,7 +613,7 @@ func (r *SvcRun) CheckOrder() {
 			}
 			e.H.Evals++
 			if prec(a, b) && a.Starts[0] > b.Starts[0] {
-				e.H.Violate("C02", "order", a.Kind+"-"+b.Kind, fmt.Sprintf("group %q: submission %d (%s) precedes %d (%s) but started after it", a.Group, a.Op.ID, a.Kind, b.Op.ID, b.Kind))
+				e.H.Violate("C02", "order", "", fmt.Sprintf("group %q: submission %d (%s) precedes %d (%s) but started after it", a.Group, a.Op.ID, a.Kind, b.Op.ID, b.Kind))
 			}
 		}
 	}
@@ -618,7 +624,7 @@ func (r *SvcRun) CheckOrder() {
 		}
 		e.H.Evals++
 		if len(s.Starts) > 1 {
-			e.H.Violate("C02", "duplicate-callback", s.Kind, fmt.Sprintf("submission %d started %d times", s.Op.ID, len(s.Starts)))
+			e.H.Violate("C02", "duplicate-callback", "", fmt.Sprintf("submission %d started %d times", s.Op.ID, len(s.Starts)))
 		}
 		if (s.Kind == "with") && s.Return != 0 {
 			if (s.Err != "") != (s.PatID < 0) {
@@ -778,7 +784,7 @@ func (CoreScenario) DecodeCase(raw json.RawMessage) (interface{}, error) {
 
 func (CoreScenario) Execute(sim *sched.Sim, c interface{}, prop string, race bool) *Outcome {
 	cs := c.(*SvcCase)
-	run := RunSvc(sim, cs, race)
+	run := RunSvc(sim, cs, race, nil)
 	if !race {
 		run.CheckOrder()
 		run.CheckLifecycle()
